@@ -441,7 +441,8 @@ def evaluate__comma_operator(self: XPathToken, context: ta.ContextType = None) \
         -> list[ta.ItemType]:
     results: list[ta.ItemType] = []
     for op in self:
-        result = op.evaluate(context)
+        # each operand has the focus of the whole expression, as in select()
+        result = op.evaluate(copy(context))
         if isinstance(result, list):
             results.extend(result)
         elif result is not None:
